@@ -29,6 +29,11 @@ pub struct Sched {
     pub blocked_seen: bool,
     /// condvar waits that ran out of other actors (stuck detector input)
     pub cv_waits: u8,
+    /// shim operations the outer operation has executed since every other actor finished
+    pub idle_steps: u32,
+    /// outer operation is allowed to spin this many steps with nobody else left to run before
+    /// the stuck detector is consulted (0 = detector off)
+    pub idle_limit: u32,
 }
 
 pub static mut SCHED: Sched = Sched {
@@ -43,6 +48,8 @@ pub static mut SCHED: Sched = Sched {
     max_steps_seen: 0,
     blocked_seen: false,
     cv_waits: 0,
+    idle_steps: 0,
+    idle_limit: 0,
 };
 
 #[inline(always)]
@@ -51,6 +58,11 @@ pub fn st() -> &'static mut Sched {
 }
 
 pub const ALL_KINDS: u16 = 0x0fff;
+/// site windows (DESIGN.md 4.1): a partition of all preemption sites by the kind of the shim
+/// operation they precede
+pub const WIN_LOADS: u16 = 1 << 0;
+pub const WIN_WRITES: u16 = (1 << 1) | (1 << 2);
+pub const WIN_OTHER: u16 = 0x1fff & !(WIN_LOADS | WIN_WRITES | (1 << 5));
 /// loads/stores/RMWs on usize cells and pointer cells, locks, notify, yield - everything except
 /// the condvar wait itself (which has its own hook)
 pub const MEM_KINDS: u16 = 0x0e07;
@@ -68,6 +80,8 @@ pub fn configure(max_depth: u8, budget: u8, kinds: u16, per_site: u8) {
     s.max_steps_seen = 0;
     s.blocked_seen = false;
     s.cv_waits = 0;
+    s.idle_steps = 0;
+    s.idle_limit = 0;
 }
 
 pub fn enable() {
@@ -81,8 +95,50 @@ pub fn disable() {
 /// Must `kani::assume(false)` if `choice` does not name an actor with an operation left.
 pub trait Scenario {
     fn inject(choice: u8);
-    /// called by the shim condvar wait: let others run; see `cv_wait_impl`
-    fn on_cv_wait() {}
+    /// every actor other than the one on the harness stack has finished its program
+    fn others_done() -> bool {
+        false
+    }
+    /// The operation on the harness stack cannot make progress and nobody is left to help it:
+    /// decide whether that is a lost wake-up (assert) or a legitimately blocked thread
+    /// (`kani::assume(false)`).  Must not return normally.
+    fn stuck() {
+        kani::assume(false);
+    }
+}
+
+/// Shim `Condvar::wait` (lock already released): the other actors run here, one complete
+/// operation at a time, chosen by the solver, until somebody calls `notify_all` on this condvar.
+/// A waiter that nobody notifies although no one is left to run is stuck for good.
+#[inline(never)]
+pub fn cv_wait_impl<Sc: Scenario>(addr: usize) {
+    let s = st();
+    if !s.enabled {
+        // sequential phase: a wait here can never be woken
+        Sc::stuck();
+        return;
+    }
+    let n0 = unsafe { *(addr as *const usize) };
+    let mut rounds = 0;
+    while rounds < 6 {
+        if unsafe { *(addr as *const usize) } != n0 {
+            return;
+        }
+        if Sc::others_done() {
+            s.cv_waits += 1;
+            Sc::stuck();
+            return;
+        }
+        let c: u8 = kani::any();
+        kani::assume(c != 0);
+        s.depth += 1;
+        s.injected += 1;
+        Sc::inject(c);
+        let s = st();
+        s.depth -= 1;
+        rounds += 1;
+    }
+    kani::assume(unsafe { *(addr as *const usize) } != n0);
 }
 
 #[inline(never)]
@@ -93,6 +149,13 @@ pub fn point_impl<Sc: Scenario>(kind: u8, _addr: usize) {
     }
     s.steps += 1;
     if s.depth >= s.max_depth {
+        return;
+    }
+    if s.idle_limit != 0 && s.depth == 0 && Sc::others_done() {
+        s.idle_steps += 1;
+        if s.idle_steps > s.idle_limit {
+            Sc::stuck();
+        }
         return;
     }
     if (s.kinds >> kind) & 1 == 0 {
@@ -155,8 +218,8 @@ macro_rules! sched_hooks {
             pub fn blocked(addr: usize) {
                 $crate::sched::blocked_impl(addr)
             }
-            pub fn cv_wait(_addr: usize) -> bool {
-                <$sc as $crate::sched::Scenario>::on_cv_wait();
+            pub fn cv_wait(addr: usize) -> bool {
+                $crate::sched::cv_wait_impl::<$sc>(addr);
                 true
             }
             pub fn alloc_event(is_alloc: bool, addr: usize, bytes: usize) {
